@@ -62,6 +62,9 @@ struct LeafCfg {
     int a_min = -1000, a_max = 1000;
     float b_min = -100, b_max = 100;
     std::vector<std::string> opts = {"sine", "saw", "square"};
+    // port name of the logical port "val" (depends on "mode"): "val", or a name that starts with its dependency's name
+    std::string val_name = "val";
+    std::string pname(const std::string &n) const { return n == "val" ? val_name : n; }
     // which ports exist and in which order
     std::vector<std::string> order;
     bool has(const std::string &n) const { for(auto &x : order) if(x == n) return true; return false; }
@@ -257,7 +260,7 @@ static inline void build(Cfg &c, Rng &r)
         } else if(n == "farr") { std::string t = "["; for(int i = 0; i < 8; ++i) t += (i ? " " : "") + fl(L.farr_def[i]); m.map("default", t + "]"); lp.push_back({"farr#8::f", keep(m.m), 0, CB_farr}); }
         else if(n == "on") { m.map("default", L.on_def ? "true" : "false"); lp.push_back({"on::T:F", keep(m.m), 0, leaf_on_cb}); }
         else if(n == "mode") { m.map("min", "0").map("max", "9").map("default", std::to_string(L.mode_def)); lp.push_back({"mode::i", keep(m.m), 0, leaf_mode_cb}); }
-        else if(n == "val") { m.map("depends", "mode,").map("default", std::to_string(L.val_def)); lp.push_back({"val::i", keep(m.m), 0, leaf_val_cb}); }
+        else if(n == "val") { m.map("depends", "mode,").map("default", std::to_string(L.val_def)); lp.push_back({keep(L.val_name + "::i"), keep(m.m), 0, leaf_val_cb}); }
     }
     if(c.enable_placement == 2) {
         // rSelf(Leaf, rEnabledBy(on)): every Leaf object is enabled by its own toggle
@@ -323,6 +326,7 @@ static inline void gen_cfg(Cfg &c, Rng &r)
     c.enable_placement = (int)r.below(3);
     c.has_many = r.chance(0.7); c.has_ptr = r.chance(0.5); c.has_top = r.chance(0.6);
     { static const char *EN[] = {"en", "en", "en", "leaf_on", "leafen"}; c.en_name = EN[r.below(5)]; }
+    { static const char *VN[] = {"val", "val", "mode_val", "modeval"}; L.val_name = VN[r.below(4)]; }
     c.ptr_gated = c.has_ptr && r.chance(0.4);
 }
 
